@@ -12,9 +12,30 @@ core.import_scoda()
 DEFAULT_VALUES = [24, 12, 6, 16, 8, 4, 36, 18, 9]
 
 
+def execute_bars(case):
+    """C06 through the bar-splitting entry point: with re-quantisation on, every note of every bar has an allowed duration."""
+    idx, score = case
+    line = {"values": list(DEFAULT_VALUES), "noExtend": True, "in": [], "out": [], "outRel": [], "raised": "", "entry": "bars",
+            "case": {"score": score, "values": list(DEFAULT_VALUES), "noExtend": True, "entry": "bars"}}
+    try:
+        from scoda.elements.bar import Bar
+        from scoda.sequences.sequence import Sequence
+        # (bar splitting wants signature changes on bar lines: only signatures on tick 0 are kept)
+        score = dict(score, extras=[m for m in score.get("extras", []) if m["t"] == 0 and m["ty"] in ("ts", "ks")])
+        seq = build(score, via4(idx))
+        line["in"] = canonical_in(seq, score)
+        bars = Sequence.sequences_split_bars([seq], 0, quantise_note_lengths=True)[0]
+        joined = Bar.to_sequence(bars)
+        line["out"] = P.raw_abs(joined)
+        line["outRel"] = P.raw_rel(joined)
+    except Exception as e:
+        line["raised"] = f"{type(e).__name__}: {e}"
+    return line
+
+
 def execute(case):
     idx, score, values, noext = case
-    line = {"values": values, "noExtend": noext, "in": [], "out": [], "outRel": [], "raised": "",
+    line = {"values": values, "noExtend": noext, "in": [], "out": [], "outRel": [], "raised": "", "entry": "",
             "case": {"score": score, "values": values, "noExtend": noext}}
     try:
         if idx % 11 == 10:      # the score played twice: one object concatenated with itself (shared Message objects)
@@ -27,7 +48,10 @@ def execute(case):
             # history: the same object had its note lengths quantised to the same values before, and the notes were
             # stretched since (scale by 3 on the relative side); the judged call starts from what the object holds now
             seq.quantise_note_lengths(list(values), do_not_extend=noext)
-            seq.scale(3, quantise_afterwards=False)
+            if idx % 2:
+                seq.scale(3, quantise_afterwards=False)
+            else:
+                seq.cutoff(7, 5)          # (an absolute-side change: the same absolute object lives on)
             line["in"] = P.raw_abs(seq)
         perturb_returned_defaults()
         sigs = [(m["ty"], m["n"], m["d"], m["k"]) for m in line["in"] if m["ty"] in ("ts", "ks")]
@@ -75,6 +99,10 @@ def run(ctx):
                     for ne in (False, True):
                         cases.append((len(cases), {k: sc[k] for k in ("notes", "extras", "dur")}, vl, ne))
     obs = pmap(execute, cases, chunk=400)
+    if not ctx.replay:
+        # the bar-splitting entry point on the random scores (notes of arbitrary length in every bar, the last one included)
+        bar_cases = [(i, c[1]) for i, c in enumerate(cases) if c[0] % 6 == 0 and max([n["e"] for n in c[1]["notes"]] + [0]) > 0][:3000]
+        obs += pmap(execute_bars, bar_cases, chunk=200)
     for i, o in enumerate(obs):
         o["id"] = i
     slim = [{k: v for k, v in o.items() if k != "case"} for o in obs]
